@@ -101,12 +101,18 @@ def adjuster_table(ctx: Ctx) -> Tuple[Dict[Tuple[str, str], ast.AST], List[Tuple
     while isinstance(node, ast.If):
         test = node.test
         types: List[str] = []
-        if isinstance(test, ast.Compare) and len(test.ops) == 1 and txt(test.left).endswith(".type"):
-            comp = test.comparators[0]
-            elts = comp.elts if isinstance(comp, (ast.List, ast.Tuple, ast.Set)) else [comp]
-            for elt in elts:
-                val = ctx.repo.const(module, elt)
-                types.append(val if val is not UNRESOLVED else f"<unresolved {txt(elt)}>")
+        # `x.type == T`, `x.type in [T, U]`, or a disjunction of those
+        alternatives = test.values if isinstance(test, ast.BoolOp) and isinstance(test.op, ast.Or) else [test]
+        for alt in alternatives:
+            if isinstance(alt, ast.Compare) and len(alt.ops) == 1 and isinstance(alt.ops[0], (ast.Eq, ast.In)) \
+                    and txt(alt.left).endswith(".type"):
+                comp = alt.comparators[0]
+                elts = comp.elts if isinstance(comp, (ast.List, ast.Tuple, ast.Set)) else [comp]
+                for elt in elts:
+                    val = ctx.repo.const(module, elt)
+                    types.append(val if val is not UNRESOLVED else f"<unresolved {txt(elt)}>")
+            else:
+                types.append(f"<unresolved {txt(alt)}>")
         chain.append((node, types, node.body))
         node = node.orelse[0] if len(node.orelse) == 1 else None
     rewrites: Dict[Tuple[str, str], ast.AST] = {}
@@ -159,14 +165,23 @@ def r12_2(ctx: Ctx) -> None:
     qual = "write_to_genbank"
     func = ctx.fn(HELP, qual)
     cfg = CFG(func)
-    snaps = [n for n in walk_local(func) if isinstance(n, (ast.Assign, ast.AnnAssign)) and isinstance(n.value, ast.DictComp)
-             and txt(n.value.value).endswith(".location") and "record.features" in txt(n.value.generators[0].iter)]
+    # the snapshot: a dict comprehension over the parent's features, or an empty dict filled by a loop over them
+    snaps = []  # (name, node that completes it, key expression, loop variable)
+    for n in walk_local(func):
+        if isinstance(n, (ast.Assign, ast.AnnAssign)) and isinstance(n.value, ast.DictComp) \
+                and txt(n.value.value).endswith(".location") and "record.features" in txt(n.value.generators[0].iter):
+            snaps.append((txt(n.target if isinstance(n, ast.AnnAssign) else n.targets[0]), n, n.value.key, txt(n.value.generators[0].target)))
+        elif isinstance(n, ast.For) and "record.features" in txt(n.iter) and not n.orelse \
+                and not any(isinstance(x, (ast.Break, ast.Return)) for x in walk_local(n)):
+            for st in n.body:
+                if isinstance(st, ast.Assign) and isinstance(st.targets[0], ast.Subscript) and txt(st.value) == f"{txt(n.target)}.location" \
+                        and st in n.body and isinstance(st.targets[0].value, ast.Name):
+                    snaps.append((st.targets[0].value.id, n, st.targets[0].slice, txt(n.target)))
     if not snaps:
         ctx.ob("R12.2", HELP, func, qual, "snapshot", False, "feature locations of the parent record are saved before the write",
                detail="no snapshot of feature locations found")
         return
-    snap = snaps[0]
-    name = txt(snap.target if isinstance(snap, ast.AnnAssign) else snap.targets[0])
+    name, snap, snap_key, snap_var = snaps[0]
     mutators = [c for c in calls(func) if call_name(c) in ("_build_base_record", "_adjust_features", "_build_record_from_cross_origin")]
     ok = bool(mutators) and all(cfg.dominates(cfg.n(snap), cfg.n(m)) and cfg.n(snap) != cfg.n(m) for m in mutators)
     ctx.ob("R12.2", HELP, snap, qual, "snapshot precedes modification", ok,
@@ -178,7 +193,7 @@ def r12_2(ctx: Ctx) -> None:
         cfg.postdominates(cfg.n(restores[0]), cfg.entry)
     ctx.ob("R12.2", HELP, restores[0] if restores else func, qual, "restore on every normal exit", ok,
            "every normal path through the writer restores the saved locations after the file has been written", form="")
-    key_ok = "id(feature)" in txt(snap.value.key) and any("id(" in txt(s.value) for r in restores for s in r.body if isinstance(s, ast.Assign))
+    key_ok = txt(snap_key) == f"id({snap_var})" and any("id(" in txt(s.value) for r in restores for s in r.body if isinstance(s, ast.Assign))
     ctx.ob("R12.2", HELP, snap, qual, "snapshot keyed by identity", key_ok,
            "saved and restored by the identity of the feature object", form="")
     # aliasing: no object of the parent's feature list is put into the region record
